@@ -289,7 +289,8 @@ Print Assumptions C18_handle_gone_nothing_changes.
 
 Theorem C18_handle_gone_nosuchprocess : forall h k, kget (h_pid h) k = None ->
   (forall v, fits_int v = true -> fst (fst (fst (hcall h None (Nice (Some v)) k))) = Exc NoSuchProcess)
-  /\ (forall cpus, fst (fst (fst (hcall h None (Affinity (Some cpus)) k))) = Exc NoSuchProcess).
+  /\ (forall cpus, fst (fst (fst (hcall h None (Affinity (Some cpus)) k))) = Exc NoSuchProcess)
+  /\ (forall sh items, fst (fst (fst (hcall h None (AffinityIt sh items) k))) = Exc NoSuchProcess).
 Proof. exact gone_nosuchprocess. Qed.
 Print Assumptions C18_handle_gone_nosuchprocess.
 
@@ -352,3 +353,30 @@ Theorem C18_pcall_recycled_no_syscall : forall h st m c k vals,
   \/ exists h', pcall h (Some st) m c k = Val (Exc NoSuchProcess, k, h', false).
 Proof. exact pcall_recycled_no_syscall. Qed.
 Print Assumptions C18_pcall_recycled_no_syscall.
+
+(* ITERABLES: cpu_affinity(cpus) for every shape of the argument.  [AffinityIt sh items] = an
+   iterable of shape sh (list, tuple, set, frozenset, range, dict view; or one-shot: iterator,
+   generator, map, chain, line iterator) that yields [items] on its first traversal. *)
+
+(* a one-shot iterable yields nothing on a second traversal (so code must traverse it once) *)
+Theorem C18_second_traversal_empty : forall a, oneshot (a_shape a) = true -> fst (iterate (snd (iterate a))) = [].
+Proof. exact second_traversal_empty. Qed.
+Print Assumptions C18_second_traversal_empty.
+
+(* for every shape the call is the call with the list of the first traversal; eligible CPUs: the
+   mask (and the get form) become exactly the set of the first traversal; only ineligible CPUs:
+   ValueError with nothing changed -- never silently "all CPUs"; an empty sized container = [];
+   an empty one-shot iterator (truthy, yields nothing): ValueError, nothing changed *)
+Theorem C18_affinity_any_iterable : forall k pid p sh items,
+  wf_kernelb k = true -> kget pid k = Some p -> wf_procb k p = true ->
+  (items <> [] -> run_req pid (AffinityIt sh items) k = run_req pid (Affinity (Some items)) k)
+  /\ (items <> [] -> (forall c, In c items -> In c (p_elig p)) ->
+      exists m, ssortedb m = true /\ (forall c, In c m <-> In c items)
+        /\ run_req pid (AffinityIt sh items) k = (Val RNone, kupd pid (set_mask m) k)
+        /\ run_req pid (Affinity None) (kupd pid (set_mask m) k) = (Val (RList m), kupd pid (set_mask m) k))
+  /\ (items <> [] -> (forall c, In c items -> ~ In c (p_elig p)) -> pid <> 0 ->
+      run_req pid (AffinityIt sh items) k = (Exc ValueError, k))
+  /\ (oneshot sh = false -> run_req pid (AffinityIt sh []) k = run_req pid (Affinity (Some [])) k)
+  /\ (oneshot sh = true -> run_req pid (AffinityIt sh []) k = (Exc ValueError, k)).
+Proof. exact affinity_any_iterable. Qed.
+Print Assumptions C18_affinity_any_iterable.
